@@ -148,7 +148,8 @@ func main() {
 }
 
 func runWorker(worker string, env map[string]string, stdout *os.File) (int, string) {
-	cmd := exec.Command(worker, "-test.run", "^TestWorker$", "-test.timeout", "12h")
+	// address-space cap per worker: a runaway allocation must kill the worker, not the machine
+	cmd := exec.Command("/bin/sh", "-c", "ulimit -v 8000000; exec \"$0\" \"$@\"", worker, "-test.run", "^TestWorker$", "-test.timeout", "12h")
 	cmd.Env = append(os.Environ(), "GOMAXPROCS=1")
 	for k, v := range env {
 		cmd.Env = append(cmd.Env, k+"="+v)
@@ -216,7 +217,7 @@ func check(args []string) int {
 	replayDir := filepath.Join(verifDir, "replays")
 	os.MkdirAll(replayDir, 0o755)
 	os.MkdirAll(filepath.Join(verifDir, "evidence"), 0o755)
-	knownPath := filepath.Join(verifDir, "known_findings.json")
+	knownPath := envOr("VERIF_KNOWN_FILE", filepath.Join(verifDir, "known_findings.json"))
 
 	results := make([]*WorkerResult, *workers)
 	fails := make([]string, *workers)
